@@ -318,8 +318,10 @@ func blockOnListChangeWorker(
 		ctx.l.Tracef("waiting for %s to get a list item until %s", keyNameStr(), end.Format(time.StampMilli))
 	}
 
+	verifPoint("blk.before_register", ctx.cs.id, "")
 	ws := blockFn()
 	defer ctx.dsc.ds.leaveListBlock(ws)
+	verifPoint("blk.after_register", ctx.cs.id, "")
 
 	// with notification registered, try operation again immediately
 	output = op()
@@ -335,8 +337,10 @@ func blockOnListChangeWorker(
 			waitTimer := time.NewTimer(timeout)
 			defer waitTimer.Stop()
 
+			verifPoint("blk.before_capture", ctx.cs.id, "")
 			unblockCh := ctx.cs.capture()
 			defer ctx.cs.releaseCapture()
+			verifPoint("blk.captured", ctx.cs.id, "")
 
 			select {
 			case reason := <-unblockCh:
@@ -352,6 +356,7 @@ func blockOnListChangeWorker(
 				return true
 			case <-ws.ready:
 				// acquire completed
+				verifPoint("blk.after_wake", ctx.cs.id, "")
 				return false
 			}
 		}() {
@@ -364,6 +369,7 @@ func blockOnListChangeWorker(
 		if output.data != nil {
 			return
 		}
+		verifPoint("blk.retry_failed", ctx.cs.id, "")
 		// a different client obtained the list element before this client could, so try again
 	}
 }
